@@ -53,6 +53,25 @@ pub(crate) fn c13_oracle(c: &PadCase, st: &mut Stats) -> Verdict {
     }
     let base_pad = strip_padding(&mut base_obs);
     ensure!(base_pad.is_null(), format!("C13:{name}:base-reports-padding"), "unpadded packet reports padding {base_pad}");
+    // a base whose FCI the crate refuses to decode (an empty SLI / FIR list: at least one entry is required)
+    // is not a well-formed packet as far as its control information goes: the FCI is left out of the comparison
+    let fci_undecodable = base_obs.get("fci").map(|f| f.get("error").is_some()).unwrap_or(false);
+    if fci_undecodable {
+        st.label("base FCI not decodable (outside the domain): FCI not compared");
+        if let Some(o) = base_obs.as_object_mut() {
+            o.remove("fci");
+        }
+    }
+    // accessors that observe_packet does not report: encoded lengths and string views of SDES chunks / items
+    let sdes_extra = |b: &[u8]| -> Result<Option<Vec<(usize, Vec<(usize, Option<String>)>)>>, Failure> {
+        if !matches!(c.spec, PacketSpec::Sdes(_)) {
+            return Ok(None);
+        }
+        no_panic("Sdes length / string accessors", || {
+            Sdes::parse(b).ok().map(|s| s.chunks().map(|ch| (ch.length(), ch.items().map(|it| (it.length(), it.get_value_string().ok())).collect())).collect())
+        })
+    };
+    let base_extra = sdes_extra(&base)?;
     if super::common::has_variable_content(&c.spec) {
         st.nontrivial();
     }
@@ -64,6 +83,13 @@ pub(crate) fn c13_oracle(c: &PadCase, st: &mut Stats) -> Verdict {
         }
         let pad = strip_padding(&mut obs);
         ensure!(pad == serde_json::json!(n), format!("C13:{name}:padding-accessor"), "padding() = {pad} for {n} bytes of padding; packet {}", hex(&padded));
+        if fci_undecodable {
+            if let Some(o) = obs.as_object_mut() {
+                o.remove("fci");
+            }
+        }
+        let extra = sdes_extra(&padded)?;
+        ensure!(extra == base_extra, format!("C13:{name}:content-changed:sdes-lengths-or-strings"), "with {n} bytes of padding the chunk / item lengths or value strings differ: {extra:?} vs unpadded {base_extra:?}; padded {}", hex(&padded));
         if let Some((short, detail)) = diff(&base_obs, &obs) {
             fail!(format!("C13:{name}:content-changed{short}"), "with {n} bytes of padding: {detail}; unpadded {} padded {}", hex(&base), hex(&padded));
         }
@@ -322,12 +348,14 @@ pub(crate) fn c15_oracle(c: &FciCase, st: &mut Stats) -> Verdict {
     if c.transport {
         match no_panic("TransportFeedback::parse", || TransportFeedback::parse(&b))? {
             Ok(fb) => each!(fb),
-            Err(e) => fail!("C15:well-framed-feedback-packet-rejected", "TransportFeedback::parse = Err({e:?}) on {}", hex(&b)),
+            // C15 speaks about packets the parser accepts; acceptance of well-formed packets is C09's and C05's business
+            Err(_) => st.label("feedback packet rejected by the packet parser (outside the domain)"),
         }
     } else {
         match no_panic("PayloadFeedback::parse", || PayloadFeedback::parse(&b))? {
             Ok(fb) => each!(fb),
-            Err(e) => fail!("C15:well-framed-feedback-packet-rejected", "PayloadFeedback::parse = Err({e:?}) on {}", hex(&b)),
+            // C15 speaks about packets the parser accepts; acceptance of well-formed packets is C09's and C05's business
+            Err(_) => st.label("feedback packet rejected by the packet parser (outside the domain)"),
         }
     }
     Ok(())
